@@ -26,23 +26,29 @@ LinesJudged(b) == \A s \in RangeOf(Segments(b)) : IsBlankLine(s) => \A i \in 1..
 
 \* the implemented scanner, with the code's four variables (0-based indices as in the Rust
 \* source).  FixedCond = FALSE is the shipped line-keeping condition (defect F8).
-RECURSIVE ScanLoop(_, _, _, _)
-ScanLoop(b, idx, st, FixedCond) ==
-    IF idx = Len(b) THEN st
-    ELSE LET ch == b[idx + 1] IN
-         IF ch = NL THEN
-             LET keep == IF FixedCond THEN st.tstart < idx
-                         ELSE st.start < idx /\ st.tstart + 1 < idx
-             IN ScanLoop(b, idx + 1,
-                         [lines  |-> IF keep THEN Append(st.lines, <<st.start, idx>>) ELSE st.lines,
-                          start  |-> idx + 1, end |-> idx + 1, tstart |-> idx + 1, trim |-> TRUE], FixedCond)
-         ELSE IF st.trim /\ ch \in WsP THEN ScanLoop(b, idx + 1, [st EXCEPT !.tstart = @ + 1], FixedCond)
-         ELSE ScanLoop(b, idx + 1, [st EXCEPT !.trim = FALSE], FixedCond)
-Scanner(b, FixedCond) ==
+\* one step of the scanner at 0-based index idx
+ScanStep(b, idx, st, FixedCond) ==
+    LET ch == b[idx + 1] IN
+    IF ch = NL THEN
+        LET keep == IF FixedCond THEN st.tstart < idx
+                    ELSE st.start < idx /\ st.tstart + 1 < idx
+        IN [lines  |-> IF keep THEN Append(st.lines, <<st.start, idx>>) ELSE st.lines,
+            start  |-> idx + 1, end |-> idx + 1, tstart |-> idx + 1, trim |-> TRUE]
+    ELSE IF st.trim /\ ch \in WsP THEN [st EXCEPT !.tstart = @ + 1]
+    ELSE [st EXCEPT !.trim = FALSE]
+\* the loop over idx0 .. Len(b) - 1 (a fold; ScanLoopRef is the same as a recursion)
+ScanLoopV(b, idx0, st0, FixedCond) ==
+    FoldL(LAMBDA st, i : ScanStep(b, i - 1, st, FixedCond), st0, SubSeq(Idx(b), idx0 + 1, Len(b)))
+ScanLoop(b, idx0, st0, FixedCond) == Let1(b, LAMBDA x : ScanLoopV(x, idx0, st0, FixedCond))
+RECURSIVE ScanLoopRef(_, _, _, _)
+ScanLoopRef(b, idx, st, FixedCond) ==
+    IF idx = Len(b) THEN st ELSE ScanLoopRef(b, idx + 1, ScanStep(b, idx, st, FixedCond), FixedCond)
+ScannerV(b, FixedCond) ==
     LET st == ScanLoop(b, 0, [lines |-> <<>>, start |-> 0, end |-> 0, tstart |-> 0, trim |-> TRUE], FixedCond)
         ls == IF st.end < Len(b) /\ st.tstart < Len(b) THEN Append(st.lines, <<st.start, Len(b)>>) ELSE st.lines
     IN [i \in 1..Len(ls) |-> SubSeq(b, ls[i][1] + 1, ls[i][2])]
 
+Scanner(b, FixedCond) == Let1(b, LAMBDA x : ScannerV(x, FixedCond))
 \* ---- one line -> one entry ---------------------------------------------------------
 CmdTable == << [name |-> <<64, 99, 119, 100>>, kind |-> "Cwd", rule |-> "req-raw"],                       \* @cwd
                [name |-> <<64, 115, 114, 99>>, kind |-> "Cwd", rule |-> "req-raw"],                       \* @src
@@ -117,20 +123,22 @@ OfKind(es, k) == LET s == SelectSeq(es, LAMBDA e : e[1] = k) IN [n \in 1..Len(s)
 FirstOfKind(es, k) == LET s == OfKind(es, k) IN IF s = <<>> THEN <<>> ELSE <<s[1]>>
 
 \* the four file views as implemented: one pass with an "ignore next file" flag (and a prefix)
-RECURSIVE ViewLoop(_, _, _, _, _, _)
-ViewLoop(es, i, ignore, prefix, acc, view) ==
-    IF i > Len(es) THEN acc
-    ELSE LET e == es[i] IN
-         IF e[1] = "Ignore" THEN ViewLoop(es, i + 1, TRUE, prefix, acc, view)
-         ELSE IF IsFile(e) THEN
-              (IF ignore THEN ViewLoop(es, i + 1, FALSE, prefix, acc, view)
-               ELSE ViewLoop(es, i + 1, FALSE, prefix,
-                             Append(acc, IF view = "files" THEN e[2]
-                                         ELSE IF view = "prefixed" THEN WithSlash(prefix) \o e[2] ELSE e), view))
-         ELSE IF e[1] = "Cwd" /\ view = "prefixed" THEN ViewLoop(es, i + 1, ignore, e[2], acc, view)
-         ELSE IF (view = "install" /\ e[1] \in InstallKinds) \/ (view = "uninstall" /\ e[1] \in UninstallKinds)
-              THEN ViewLoop(es, i + 1, ignore, prefix, Append(acc, e), view)
-         ELSE ViewLoop(es, i + 1, ignore, prefix, acc, view)
+\* state <<ignore, prefix, acc>>
+ViewStep(st, e, view) ==
+    LET ignore == st[1]  prefix == st[2]  acc == st[3] IN
+    IF e[1] = "Ignore" THEN <<TRUE, prefix, acc>>
+    ELSE IF IsFile(e) THEN
+         (IF ignore THEN <<FALSE, prefix, acc>>
+          ELSE <<FALSE, prefix, Append(acc, IF view = "files" THEN e[2]
+                                            ELSE IF view = "prefixed" THEN WithSlash(prefix) \o e[2] ELSE e)>>)
+    ELSE IF e[1] = "Cwd" /\ view = "prefixed" THEN <<ignore, e[2], acc>>
+    ELSE IF (view = "install" /\ e[1] \in InstallKinds) \/ (view = "uninstall" /\ e[1] \in UninstallKinds)
+         THEN <<ignore, prefix, Append(acc, e)>>
+    ELSE st
+ViewLoop(es, i0, ignore, prefix, acc, view) ==
+    Nth(FoldL(LAMBDA st, e : ViewStep(st, e, view), <<ignore, prefix, acc>>, SubSeq(es, i0, Len(es))), 3)
+RECURSIVE ViewLoopRef(_, _, _, _)
+ViewLoopRef(es, i, st, view) == IF i > Len(es) THEN st[3] ELSE ViewLoopRef(es, i + 1, ViewStep(st, es[i], view), view)
 View(es, v) == ViewLoop(es, 1, FALSE, <<>>, <<>>, v)
 
 Queries(es) == [files |-> FilesRef(es), prefixed |-> PrefixedRef(es),
